@@ -485,7 +485,7 @@ theorem flush_parked (c : Cfg) (i : Bool) (b : Buf) (hpc : parked b = true) (hcl
       timerFire, signal, parked, mustWait, swapBody, batch, isTimer, ht, hr, hw, hwl] at hpc hnl ⊢
 
 /-- **C31, bounded delay even if no further packets arrive (buffer level).** From any state of a sender's buffer that
-    satisfies the invariants (every reachable state does, see `prompt_even_if_idle`), if nobody pushes any more, the forced
+    satisfies the invariants (every reachable state does, see `prompt_even_if_idle_partial`), if nobody pushes any more, the forced
     moves of the sender and of its batch timer — at most 6 of them, among which at most ONE expiry of the 1 s batch timer —
     hand every accepted packet that was still buffered to a successful upstream write, in order. -/
 theorem flush_within_one_timeout (c : Cfg) (i : Bool) (b : Buf) (hinv : BInv c b) (hnl : NoLost c b)
@@ -496,8 +496,10 @@ theorem flush_within_one_timeout (c : Cfg) (i : Bool) (b : Buf) (hinv : BInv c b
   | swap1 => exact flush_parked c i b (by simp [parked, hpc]) hcl hinv.exh hnl
   | swap2 => exact flush_parked c i b (by simp [parked, hpc]) hcl hinv.exh hnl
 
-/-- the same, for every reachable state of the pool (any history of pushes, sender steps, timers, … in any interleaving) -/
-theorem prompt_even_if_idle (c : Cfg) (ops : List Op) (i : Bool)
+/-- the same, for every reachable state of the pool (any history of pushes, sender steps, timers, … in any interleaving).
+    `_partial`: the bound is "at most one batch-timer expiry and 6 sender moves"; that a timer period is 1 s of real time and
+    sendLoop's reconnect loop are outside the model (see the comment at the end of this file). -/
+theorem prompt_even_if_idle_partial (c : Cfg) (ops : List Op) (i : Bool)
     (hcl : (getB (run .signal c {} ops) i).closed = false) :
     Flushed (getB (run .signal c {} ops) i) (drive .signal c i 6 (getB (run .signal c {} ops) i)) :=
   flush_within_one_timeout c i _ (pinv_getB c _ (pinv_run .signal c ops {} (pinv_init c)) i)
@@ -660,8 +662,10 @@ theorem acct_step (v : Variant) (c : Cfg) (s : Pool) (op : Op) (h : Acct s) : Ac
 /-- **C31, "every drop is counted and reported upstream".** After any history: every non-empty packet handed to the
     balancer was either accepted by exactly one sender or counted as dropped; and the bytes of all packets refused because
     both buffers were full are exactly: still in `wouldBlockBytes` (sent with the primary sender's next report) + already
-    announced upstream by report packets + announced by report packets whose write failed (each counted in `writeErrors`). -/
-theorem drops_counted_and_reported (v : Variant) (c : Cfg) (ops : List Op) : Acct (run v c {} ops) := by
+    announced upstream by report packets + announced by report packets whose write failed (each counted in `writeErrors`).
+    `_partial`: that the pending part is eventually sent is liveness of sendLoop (it reports after every `pop` that returns,
+    i.e. at least once per timer period by `prompt_even_if_idle_partial`); checked by the live tier, not proved. -/
+theorem drops_counted_and_reported_partial (v : Variant) (c : Cfg) (ops : List Op) : Acct (run v c {} ops) := by
   suffices h : ∀ s, Acct s → Acct (run v c s ops) from h {} ⟨rfl, rfl, rfl⟩
   induction ops with
   | nil => intro s h; exact h
@@ -832,11 +836,11 @@ example : (run .signal c2 {} [.handle [1], .handle [2], .handle [3], .handle [4]
 
     "… within a bounded delay (about one second plus reconnection time) …"
   Proved: after the last push, at most one expiry of the batch timer and at most 6 forced moves of the sender hand every
-  buffered packet to a successful write (`prompt_even_if_idle`), a failed write gives up exactly one packet and the rest is
+  buffered packet to a successful write (`prompt_even_if_idle_partial`), a failed write gives up exactly one packet and the rest is
   offered again immediately (`write_error_skips_exactly_one`), and no wake-up is ever lost (`never_stuck`).
   Not proved: the real-time length of a timer period (time.AfterFunc, 1 s) and of a write; sendLoop's reconnect loop
   (ReconnectDelay, DialTimeout, write deadlines) — these are measured by the live tier of the harness with a 10 s budget;
-  "reported upstream" as a liveness statement (the report is sent by sendLoop after `pop` returns; `drops_counted_and_reported`
+  "reported upstream" as a liveness statement (the report is sent by sendLoop after `pop` returns; `drops_counted_and_reported_partial`
   proves the bytes are never lost from the books, the live tier checks the report arrives).
 -/
 
